@@ -25,7 +25,9 @@ def prefix_ok(state, before, after):
 def main(tier, seed):
     ck = Check("C12", tier, seed)
     tf = use_impl()
-    b = ck.build_proofs("Prop_C12", extra_targets=["Run.vo", "IO.vo"])
+    refused = []
+    # the storage's I/O calls are regenerated from storages.py (symbolic execution) and proved equal to the model's scripts (proofs/IOGenP.v)
+    b = ck.build_proofs("Prop_C12", pre=lambda: run_translator("py2coq_io.py", "tinyflux/storages.py", "gen/IOGen.v", refused), extra_targets=["Run.vo", "IO.vo"])
     n_cases = 16 if tier == "quick" else 144
     cases = iotie.io_cases(seed, n_cases, kinds=KINDS)
     coq_cases, direct_bad, n_pairs, kinds, hard_checked = [], [], 0, {}, 0
@@ -86,6 +88,7 @@ def main(tier, seed):
                       "what_no_longer_checks": "I/O-script correspondence IO.v crash_states vs file contents at real I/O boundaries (theorems C12_*)",
                       "history": h, "op": o, "auto_index": a, "observed_sizes": [len(x) for x in obs]}, no_input=True)
     ck.cov = {
+        "translator": dict(IO_TRANSLATOR_COV, refused=refused),
         "obligations": b["obligations"], "discharged": b["discharged"],
         "checker_cmd": "make -C /verif/coq Prop_C12.vo IO.vo Run.vo; Print Assumptions per theorem; crash_states evaluated with vm_compute",
         "trusted_base": TRUSTED_BASE_COMMON + [
